@@ -25,7 +25,7 @@ def harness(name, props, kind, what, tier='quick', bound='none', args=(), timeou
     HARNESSES.append(dict(name=name, props=props, kind=kind, what=what, tier=tier, bound=bound, args=list(args), timeout=timeout, heavy=heavy))
 
 
-_BUILT = ['C01', 'C02', 'C03', 'C04', 'C05', 'C06', 'C07', 'C08', 'C09', 'C11', 'C12', 'C13', 'C14', 'C15', 'C17']
+_BUILT = ['C01', 'C02', 'C03', 'C04', 'C05', 'C06', 'C07', 'C08', 'C09', 'C11', 'C12', 'C13', 'C14', 'C15', 'C16', 'C17']
 for _p in ['C01', 'C02', 'C03', 'C04', 'C05', 'C06', 'C07', 'C08', 'C09', 'C10', 'C11', 'C12', 'C13', 'C14', 'C15', 'C16', 'C17']:
     if _p in _BUILT:
         prop(_p, level='proof', level_text='Verus discharges the contracts of the real functions serving this property for all inputs (under construction: unit list grows)',
@@ -180,3 +180,54 @@ for _n, _w in [('vx_u16_from_be_bytes', 'u16::from_be_bytes == b0*256+b1'), ('vx
                ('vx_sll_packet_type_try_from', 'assumed spec of TryFrom<u16> for LinuxSllPacketType'),
                ('vx_sll_protocol_type_try_from', 'assumed spec of TryFrom<(ArpHardwareId,u16)> for LinuxSllProtocolType, From<u16> for ArpHardwareId')]:
     harness('h_vxlib::' + _n, ['C01', 'C09'] if 'sll' not in _n else ['C01'], 'complete (loop-free or width-bounded, full input domain)', 'trusted-base check: ' + _w, tier='quick', timeout=300)
+
+# ---- C16 I/O faults + C06 read-vs-from_slice (agent k-io); tier by measured time --------------------------------------------
+harness('h_io::c16_limited_reader_step', ['C16', 'C07'], 'complete (all usize max_len/layer_offset; request sizes <=64)', 'LimitedReader one-step contract: delegates iff n<=max_len-read_len, never asks inner for more than the limit, exact LenError fields, Io passthrough, accessors', tier='quick', bound='none', timeout=300)
+harness('h_io::c06_read_vs_slice_ethernet2', ['C06'], 'complete (all byte strings 0..=17)', 'Ethernet2Header read vs from_slice, cursor position == header bytes', tier='quick', bound='none', timeout=300)
+harness('h_io::c16_read_fail_ethernet2', ['C16'], 'complete', 'Ethernet2Header::read with reader failing/EOF at byte k', tier='quick', bound='none', timeout=300)
+harness('h_io::c16_write_fail_ethernet2', ['C16'], 'complete', 'Ethernet2Header::write with writer failing at byte k: Io error, prefix', tier='quick', bound='none', timeout=300)
+harness('h_io::c16_slice_space_ethernet2', ['C16'], 'complete (all values x slice len 0..=16)', 'Ethernet2Header::write_to_slice: SliceWriteSpaceError fields, canaries, rest len', tier='quick', bound='none', timeout=300)
+harness('h_io::c06_read_vs_slice_linux_sll', ['C06', 'C01'], 'complete (all byte strings 0..=19)', 'LinuxSllHeader read vs from_slice (same header or same rejection, cursor position)', tier='quick', bound='none', timeout=300)
+harness('h_io::c16_read_fail_linux_sll', ['C16'], 'complete', 'LinuxSllHeader::read reader fault at k (valid encodings)', tier='quick', bound='none', timeout=300)
+harness('h_io::c16_write_fail_linux_sll', ['C16'], 'complete', 'LinuxSllHeader::write writer fault at k', tier='quick', bound='none', timeout=300)
+harness('h_io::c16_slice_space_linux_sll', ['C16'], 'complete', 'LinuxSllHeader::write_to_slice space error / canaries', tier='quick', bound='none', timeout=300)
+harness('h_io::c06_read_vs_slice_single_vlan', ['C06'], 'complete (0..=7 B)', 'SingleVlanHeader read vs from_slice', tier='quick', bound='none', timeout=300)
+harness('h_io::c16_read_fail_single_vlan', ['C16'], 'complete', 'SingleVlanHeader::read reader fault', tier='quick', bound='none', timeout=300)
+harness('h_io::c16_write_fail_single_vlan', ['C16'], 'complete', 'SingleVlanHeader::write writer fault', tier='quick', bound='none', timeout=300)
+harness('h_io::c06_read_vs_slice_macsec', ['C06'], 'complete (0..=19 B)', 'MacsecHeader read vs from_slice (header bytes from 802.1AE TCI bits)', tier='quick', bound='none', timeout=300)
+harness('h_io::c16_read_fail_macsec', ['C16'], 'complete', 'MacsecHeader::read reader fault', tier='quick', bound='none', timeout=300)
+harness('h_io::c16_write_fail_macsec', ['C16'], 'complete', 'MacsecHeader::write writer fault', tier='quick', bound='none', timeout=300)
+harness('h_io::c06_read_vs_slice_ipv6', ['C06'], 'complete (0..=43 B)', 'Ipv6Header read vs from_slice incl. truncated+wrong version', tier='quick', bound='none', timeout=300)
+harness('h_io::c16_read_fail_ipv6', ['C16'], 'complete', 'Ipv6Header::read reader fault', tier='thorough', bound='none', timeout=300)
+harness('h_io::c16_write_fail_ipv6', ['C16'], 'complete', 'Ipv6Header::write writer fault', tier='thorough', bound='none', timeout=300)
+harness('h_io::c06_read_vs_slice_ipv6_fragment', ['C06'], 'complete (0..=11 B)', 'Ipv6FragmentHeader read vs from_slice', tier='quick', bound='none', timeout=300)
+harness('h_io::c16_read_fail_ipv6_fragment', ['C16'], 'complete', 'Ipv6FragmentHeader::read reader fault', tier='quick', bound='none', timeout=300)
+harness('h_io::c16_write_fail_ipv6_fragment', ['C16'], 'complete', 'Ipv6FragmentHeader::write writer fault', tier='quick', bound='none', timeout=300)
+harness('h_io::c06_read_vs_slice_udp', ['C06'], 'complete (0..=11 B)', 'UdpHeader read vs from_slice', tier='quick', bound='none', timeout=300)
+harness('h_io::c16_read_fail_udp', ['C16'], 'complete', 'UdpHeader::read reader fault', tier='quick', bound='none', timeout=300)
+harness('h_io::c16_write_fail_udp', ['C16'], 'complete', 'UdpHeader::write writer fault', tier='quick', bound='none', timeout=300)
+harness('h_io::c06_read_vs_slice_icmpv4', ['C06'], 'complete (0..=23 B; timestamp msgs on slices ending with the header)', 'Icmpv4Header read vs from_slice', tier='quick', bound='none', timeout=300)
+harness('h_io::c16_read_fail_icmpv4', ['C16'], 'complete', 'Icmpv4Header::read reader fault', tier='quick', bound='none', timeout=300)
+harness('h_io::c16_write_fail_icmpv4', ['C16'], 'complete', 'Icmpv4Header::write writer fault', tier='thorough', bound='none', timeout=375)
+harness('h_io::c06_read_vs_slice_icmpv6', ['C06'], 'complete (0..=11 B)', 'Icmpv6Header read vs from_slice', tier='quick', bound='none', timeout=300)
+harness('h_io::c16_read_fail_icmpv6', ['C16'], 'complete', 'Icmpv6Header::read reader fault', tier='quick', bound='none', timeout=300)
+harness('h_io::c16_write_fail_icmpv6', ['C16'], 'complete', 'Icmpv6Header::write writer fault', tier='quick', bound='none', timeout=300)
+harness('h_io::c06_read_vs_slice_ipv4', ['C06'], 'complete (0..=62 B, every IHL, unwind 42 with unwinding assertions)', 'Ipv4Header read vs from_slice', tier='quick', bound='none', timeout=300)
+harness('h_io::c16_read_fail_ipv4', ['C16'], 'complete', 'Ipv4Header::read reader fault (20..=60 B encodings)', tier='quick', bound='none', timeout=300)
+harness('h_io::c16_write_fail_ipv4_raw', ['C16'], 'complete', 'Ipv4Header::write_raw writer fault, header+options pieces, prefix', tier='thorough', bound='none', timeout=300)
+harness('h_io::c16_write_fail_ipv4', ['C16'], 'complete', 'Ipv4Header::write (with checksum calc) writer fault', tier='thorough', bound='none', timeout=3160)
+harness('h_io::c06_read_vs_slice_tcp', ['C06'], 'complete (0..=62 B, every data offset)', 'TcpHeader read vs from_slice', tier='quick', bound='none', timeout=300)
+harness('h_io::c16_read_fail_tcp', ['C16'], 'complete', 'TcpHeader::read reader fault', tier='quick', bound='none', timeout=300)
+harness('h_io::c16_write_fail_tcp', ['C16'], 'complete', 'TcpHeader::write writer fault, header+options pieces', tier='quick', bound='none', timeout=300)
+harness('h_io::c06_read_vs_slice_ip_auth', ['C06'], 'bounded (ICV <= 16 B)', 'IpAuthHeader read vs from_slice', tier='thorough', bound='ICV <= 16 B', timeout=480)
+harness('h_io::c16_read_fail_ip_auth', ['C16'], 'bounded (ICV <= 16 B)', 'IpAuthHeader::read reader fault', tier='thorough', bound='ICV <= 16 B', timeout=300)
+harness('h_io::c16_write_fail_ip_auth', ['C16'], 'bounded (ICV <= 16 B)', 'IpAuthHeader::write writer fault, two pieces', tier='thorough', bound='ICV <= 16 B', timeout=300)
+harness('h_io::c06_read_vs_slice_ipv6_raw_ext', ['C06'], 'bounded (payload <= 14 B)', 'Ipv6RawExtHeader read vs from_slice', tier='thorough', bound='payload <= 14 B', timeout=625)
+harness('h_io::c16_read_fail_ipv6_raw_ext', ['C16'], 'bounded (payload <= 14 B)', 'Ipv6RawExtHeader::read reader fault', tier='thorough', bound='payload <= 14 B', timeout=520)
+harness('h_io::c16_write_fail_ipv6_raw_ext', ['C16'], 'bounded (payload <= 14 B)', 'Ipv6RawExtHeader::write writer fault, two pieces', tier='thorough', bound='payload <= 14 B', timeout=680)
+harness('h_io::c06_read_vs_slice_arp', ['C06'], 'bounded (addr sizes <= 4)', 'ArpPacket read vs from_slice', tier='thorough', bound='addr sizes <= 4', timeout=1305)
+harness('h_io::c16_read_fail_arp', ['C16'], 'bounded (addr sizes <= 4)', 'ArpPacket::read reader fault', tier='thorough', bound='addr sizes <= 4', timeout=955)
+harness('h_io::c16_write_fail_ipv6_exts', ['C16'], 'bounded (one concrete chain: hop-by-hop(6 B payload)+fragment)', 'Ipv6Extensions::write writer fault at k in 0..=16, prefix', tier='thorough', bound='one concrete chain: hop-by-hop(6 B payload)+fragment', timeout=835, heavy=True)
+harness('h_io::c16_write_fail_ip_headers', ['C16'], 'bounded (one concrete IPv4 header, no exts)', 'IpHeaders::write writer fault at k in 0..=20', tier='quick', bound='one concrete IPv4 header, no exts', timeout=300)
+harness('h_io::c16_slice_space_builder_udp', ['C16', 'C10'], 'bounded (eth+ipv4+udp concrete, payload len 0..=4)', 'PacketBuilder::write_to_slice: Space(real len), canaries, == io::Write output', tier='thorough', bound='eth+ipv4+udp concrete, payload len 0..=4', timeout=1180, heavy=True)
+harness('h_io::c16_write_fail_builder_udp', ['C16', 'C10'], 'bounded (eth+ipv4+udp concrete, payload len 0..=4)', 'PacketBuilder::write writer fault at k: BuildWriteError::Io, prefix over 4 pieces', tier='thorough', bound='eth+ipv4+udp concrete, payload len 0..=4', timeout=1665, heavy=True)
